@@ -137,6 +137,10 @@ pub trait Property: Sync + Send {
     fn fuzz_targets(&self) -> Vec<&'static str> {
         vec![]
     }
+    /// optional: run the property's oracle on a raw text / byte input (fuzz artifacts)
+    fn check_raw(&self, _kind: &str, _data: &[u8]) -> Option<(String, String)> {
+        None
+    }
 }
 
 // ---------------------------------------------------------------------------------------------
@@ -345,7 +349,8 @@ pub fn run_property(p: &dyn Property, tier: Tier, seed: u64) -> RunResult {
         Tier::Quick => 4,
         Tier::Thorough => 16,
     };
-    let total_cases = p.cases(tier);
+    // VERIF_CASES overrides the fixed case count (used when trying the machinery out)
+    let total_cases = std::env::var("VERIF_CASES").ok().and_then(|s| s.parse().ok()).unwrap_or_else(|| p.cases(tier));
     let per_worker = (total_cases / workers as u64).max(1);
     let lens = p.stream_lens();
 
@@ -534,6 +539,24 @@ pub fn run_property(p: &dyn Property, tier: Tier, seed: u64) -> RunResult {
         }
     }
 
+    // 4. coverage-guided campaigns (thorough tier only)
+    let mut fuzz_reports = vec![];
+    let mut fuzz_inconclusive = false;
+    if tier == Tier::Thorough {
+        let secs = std::env::var("VERIF_FUZZ_SECS").ok().and_then(|s| s.parse().ok()).unwrap_or(120u64);
+        for t in p.fuzz_targets() {
+            let rep = crate::fuzzglue::campaign(id, t, seed, secs);
+            println!(
+                "fuzz target {t}: {} execs={} seeds={} corpus={} artifacts={} (inconclusive {}, unreproduced {})",
+                rep.status, rep.execs, rep.corpus_seeds, rep.corpus_final, rep.artifacts, rep.inconclusive_artifacts, rep.unreproduced_artifacts
+            );
+            if rep.inconclusive_artifacts > 0 {
+                fuzz_inconclusive = true;
+            }
+            fuzz_reports.push(rep);
+        }
+    }
+
     // infrastructure failures are not violations
     let mut exit = 0;
     let mut infra = vec![];
@@ -560,6 +583,24 @@ pub fn run_property(p: &dyn Property, tier: Tier, seed: u64) -> RunResult {
         replay_paths.push(path.display().to_string());
         exit = 1;
     }
+    let mut fuzz_json = vec![];
+    for rep in &fuzz_reports {
+        for (key, msg, path) in &rep.violations {
+            if seen.insert(key.clone()) {
+                println!("VIOLATION property={} replay={}", id, path.display());
+                println!("  key: {}", key);
+                println!("  {}", msg.replace('\n', "\n  "));
+                replay_paths.push(path.display().to_string());
+                exit = 1;
+            }
+        }
+        fuzz_json.push(json!({
+            "target": rep.target, "status": rep.status, "executions": rep.execs, "seconds": rep.secs,
+            "seed_corpus": rep.corpus_seeds, "final_corpus": rep.corpus_final, "artifacts": rep.artifacts,
+            "inconclusive_artifacts": rep.inconclusive_artifacts, "unreproduced_artifacts": rep.unreproduced_artifacts,
+            "violations": rep.violations.len(),
+        }));
+    }
     for k in known.iter().filter(|k| k.open && k.property == id) {
         println!("KNOWN-FINDING: property={} {} [{}]", id, k.what, k.key);
     }
@@ -574,6 +615,9 @@ pub fn run_property(p: &dyn Property, tier: Tier, seed: u64) -> RunResult {
     if exit == 0 {
         if !infra.is_empty() {
             println!("INCONCLUSIVE property={id} harness problem: {}", infra.join("; "));
+            exit = 2;
+        } else if fuzz_inconclusive {
+            println!("INCONCLUSIVE property={id} a fuzz campaign left timeout/oom artifacts (copied to replays/{id}/); not a violation");
             exit = 2;
         } else if distinct < 2 {
             println!("INCONCLUSIVE property={id} fewer than 2 distinct non-trivial cases were produced");
@@ -608,6 +652,7 @@ pub fn run_property(p: &dyn Property, tier: Tier, seed: u64) -> RunResult {
             "workers": workers,
             "engine": "proptest 1.11 TestRunner over three choice streams (vec<u32>), RngSeed::Fixed derived from VERIF_SEED",
             "exhaustive": false,
+            "fuzz": fuzz_json,
             "replays": replay_paths,
         },
         "assumptions": p.assumptions(),
@@ -651,6 +696,25 @@ pub fn replay(p: &dyn Property, path: &Path) -> i32 {
             return 2;
         }
     };
+    if let Some(kind) = v.get("kind").and_then(|k| k.as_str()) {
+        if kind == "text" || kind == "fuzz-bytes-hex" {
+            let text = v["text"].as_str().unwrap_or("");
+            let data = if kind == "text" { text.as_bytes().to_vec() } else { crate::fuzzglue::unhex(text) };
+            crate::fuzzglue::init();
+            return match p.check_raw(kind, &data) {
+                Some((key, msg)) => {
+                    println!("VIOLATION property={} replay={}", p.id(), path.display());
+                    println!("  key: {key}");
+                    println!("  {}", msg.replace('\n', "\n  "));
+                    1
+                }
+                None => {
+                    println!("replay: property held on this input");
+                    0
+                }
+            };
+        }
+    }
     let mut streams: Streams = [vec![], vec![], vec![]];
     if let Some(arr) = v.get("streams").and_then(|a| a.as_array()) {
         for (i, s) in arr.iter().enumerate().take(3) {
